@@ -2,6 +2,9 @@
   C16 — the interactive builder returns exactly the answered, valid vector.
 -/
 import Cvss.Model.Interactive
+import Cvss.Lemmas.Parse
+import Cvss.Props.C04
+import Cvss.Lemmas.Interactive
 namespace Cvss.Props.C16
 open Cvss Cvss.Model Cvss.Model.Interactive
 
@@ -26,5 +29,286 @@ theorem empty_selects_nd :
       | none => false
       | some row => !(ndOf v ∈ keys row) || select (keys row) (normalize v []) == some (ndOf v)) = true := by
   decide +kernel
+
+/-- what one answer means for a metric with legal values `values`: after stripping white space and
+    ASCII case folding (empty = Not Defined), the legal value it denotes, if any -/
+def accepted (v : IVer) (values : List Str) (answer : Str) : Option Str := select values (normalize v answer)
+
+/-- an accepted answer always denotes a LEGAL value of the metric, matched case-insensitively -/
+theorem accepted_legal (v : IVer) (values : List Str) (answer x : Str) (h : accepted v values answer = some x) :
+    x ∈ values ∧ upper x = normalize v answer :=
+  select_some h
+
+/-- the dialogue the statement describes: the metrics are asked one after the other; each consumes
+    answers up to and including the first one that denotes a legal value of that metric.
+    `Dialogue v metrics answers acc rest`: asking `metrics` against `answers` accepts the pairs `acc`
+    (metric, value) in order and leaves `rest` unread. -/
+inductive Dialogue (v : IVer) : List Str → List Str → List (Str × Str) → List Str → Prop
+  | done (answers : List Str) : Dialogue v [] answers [] answers
+  | ask (m : Str) (ms : List Str) (row : List (Str × Str)) (bad : List Str) (good x : Str)
+      (tail : List Str) (acc : List (Str × Str)) (rest : List Str) :
+      lookup m (valueNamesOf v) = some row →
+      (∀ b ∈ bad, accepted v (keys row) b = none) →
+      accepted v (keys row) good = some x →
+      Dialogue v ms tail acc rest →
+      Dialogue v (m :: ms) (bad ++ good :: tail) ((m, x) :: acc) rest
+
+/-- the metrics the builder asks: all of the version's table, or only the mandatory ones -/
+def asked (v : IVer) (allMetrics : Bool) : List Str := if allMetrics then abbrsOf v else mandatoryOf v
+
+/-- every metric that is asked has a row of value names (no KeyError) -/
+theorem asked_have_rows :
+    ([IVer.i2, .i30, .i31, .i4].all fun v => [true, false].all fun a =>
+      (asked v a).all fun m => (lookup m (valueNamesOf v)).isSome) = true := by
+  decide +kernel
+
+/-! ### the loop against the dialogue (generalised over the accumulated fields and trace) -/
+
+/-- if the loop returns a vector, the dialogue completed, and vector, trace and counter are as described -/
+theorem loop_result_imp (v : IVer) (ms answers fields : List Str) (tr0 : List (Str × Nat)) (vec : Str)
+    (n : Nat) (trace : List (Str × Nat)) (h : loop v ms answers fields tr0 = .result vec n trace) :
+    ∃ acc rest tr, Dialogue v ms answers acc rest ∧
+      vec = prefixOf v ++ join '/' (fields ++ acc.map fieldOf) ∧ trace = tr0 ++ tr ∧
+      tr.map (·.1) = ms ∧ (tr.map (·.2)).sum + rest.length = answers.length ∧
+      n = (trace.map (·.2)).sum := by
+  induction ms generalizing answers fields tr0 with
+  | nil =>
+    rw [loop_nil] at h
+    simp only [Outcome.result.injEq] at h
+    obtain ⟨rfl, rfl, rfl⟩ := h
+    exact ⟨[], answers, [], .done answers, by simp, by simp, rfl, by simp, rfl⟩
+  | cons m ms ih =>
+    cases hl : lookup m (valueNamesOf v) with
+    | none => rw [loop_cons_none v m ms answers fields tr0 hl] at h; cases h
+    | some row =>
+      cases ha : askOne v (keys row) answers with
+      | none => rw [loop_cons_eof v m ms answers fields tr0 row hl ha] at h; cases h
+      | some t =>
+        obtain ⟨x, rest', k⟩ := t
+        rw [loop_cons_some v m ms answers fields tr0 row x rest' k hl ha] at h
+        obtain ⟨acc, rest, tr, hd, hvec, htr, hfst, hsum, hn⟩ := ih _ _ _ h
+        obtain ⟨bad, good, rfl, hbad, hgood, rfl⟩ := askOne_some _ _ _ _ _ _ ha
+        refine ⟨(m, x) :: acc, rest, (m, bad.length + 1) :: tr,
+          .ask m ms row bad good x rest' acc rest hl hbad hgood hd, ?_, ?_, ?_, ?_, hn⟩
+        · rw [hvec]; simp [fieldOf]
+        · rw [htr]; simp
+        · simp [hfst]
+        · simp only [List.map_cons, List.sum_cons, List.length_append, List.length_cons]
+          omega
+
+/-- if the dialogue completes, the loop returns the described vector, with a trace over exactly the
+    asked metrics whose counts add up to the number of answers read -/
+theorem loop_of_dialogue (v : IVer) (ms answers : List Str) (acc : List (Str × Str)) (rest : List Str)
+    (h : Dialogue v ms answers acc rest) :
+    ∀ (fields : List Str) (tr0 : List (Str × Nat)), ∃ tr,
+      loop v ms answers fields tr0 =
+        .result (prefixOf v ++ join '/' (fields ++ acc.map fieldOf)) (((tr0 ++ tr).map (·.2)).sum)
+          (tr0 ++ tr) ∧
+      tr.map (·.1) = ms ∧ (tr.map (·.2)).sum + rest.length = answers.length := by
+  induction h with
+  | done answers =>
+    intro fields tr0
+    exact ⟨[], by rw [loop_nil]; simp, rfl, by simp⟩
+  | ask m ms row bad good x tail acc rest hl hbad hgood hd ih =>
+    intro fields tr0
+    obtain ⟨tr, h1, h2, h3⟩ := ih (fields ++ [m ++ ':' :: x]) (tr0 ++ [(m, bad.length + 1)])
+    refine ⟨(m, bad.length + 1) :: tr, ?_, ?_, ?_⟩
+    · rw [loop_cons_some v m ms _ fields tr0 row x tail (bad.length + 1) hl
+        (askOne_append v (keys row) bad good x tail hbad hgood), h1]
+      simp [fieldOf]
+    · simp [h2]
+    · simp only [List.map_cons, List.sum_cons, List.length_append, List.length_cons]
+      omega
+
+/-- the three outcomes are the only ones -/
+theorem outcome_cases (o : Outcome) :
+    (∃ vec n trace, o = .result vec n trace) ∨ (∃ trace, o = .eof trace) ∨ o = .keyError := by
+  cases o with
+  | result vec n trace => exact Or.inl ⟨vec, n, trace, rfl⟩
+  | eof trace => exact Or.inr (Or.inl ⟨trace, rfl⟩)
+  | keyError => exact Or.inr (Or.inr rfl)
+
+/-- `ask_result_iff`, left to right (this is the direction the later theorems use) -/
+theorem ask_result_imp (v : IVer) (allMetrics : Bool) (answers : List Str) (vec : Str) (n : Nat)
+    (trace : List (Str × Nat)) (h : ask v allMetrics answers = .result vec n trace) :
+    ∃ acc rest, Dialogue v (asked v allMetrics) answers acc rest ∧
+      vec = prefixOf v ++ join '/' (acc.map fieldOf) ∧ n + rest.length = answers.length ∧
+      trace.map (·.1) = asked v allMetrics ∧ (trace.map (·.2)).sum = n := by
+  obtain ⟨acc, rest, tr, hd, hvec, htr, hfst, hsum, hn⟩ :=
+    loop_result_imp v (asked v allMetrics) answers [] [] vec n trace h
+  simp only [List.nil_append] at hvec htr
+  subst htr
+  exact ⟨acc, rest, hd, hvec, by omega, hfst, hn.symm⟩
+
+/-- a completed dialogue makes the builder return the described vector; the trace it returns covers
+    exactly the asked metrics and its counts add up to the number of answers read -/
+theorem ask_of_dialogue (v : IVer) (allMetrics : Bool) (answers : List Str) (acc : List (Str × Str))
+    (rest : List Str) (h : Dialogue v (asked v allMetrics) answers acc rest) :
+    ∃ n trace, ask v allMetrics answers = .result (prefixOf v ++ join '/' (acc.map fieldOf)) n trace ∧
+      n + rest.length = answers.length ∧ trace.map (·.1) = asked v allMetrics ∧
+      (trace.map (·.2)).sum = n := by
+  obtain ⟨tr, h1, h2, h3⟩ := loop_of_dialogue v _ answers acc rest h [] []
+  simp only [List.nil_append] at h1
+  exact ⟨_, tr, h1, h3, h2, rfl⟩
+
+/-- MAIN (result): the builder returns a vector `vec` after consuming `n` answers — asking each metric
+    of the requested set exactly once, in table order (the trace it reports) — exactly when the dialogue
+    of the statement completes having read `n` answers, and then the vector is the version prefix
+    followed by exactly the accepted answers in the order asked -/
+theorem ask_result_iff (v : IVer) (allMetrics : Bool) (answers : List Str) (vec : Str) (n : Nat) :
+    (∃ trace, ask v allMetrics answers = .result vec n trace ∧
+        trace.map (·.1) = asked v allMetrics ∧ (trace.map (·.2)).sum = n) ↔
+      ∃ acc rest, Dialogue v (asked v allMetrics) answers acc rest ∧
+        vec = prefixOf v ++ join '/' (acc.map fieldOf) ∧ n + rest.length = answers.length := by
+  constructor
+  · rintro ⟨trace, h, -, -⟩
+    obtain ⟨acc, rest, hd, hvec, hn, -, -⟩ := ask_result_imp v allMetrics answers vec n trace h
+    exact ⟨acc, rest, hd, hvec, hn⟩
+  · rintro ⟨acc, rest, hd, rfl, hn⟩
+    obtain ⟨n', trace, h, hn', hfst, hsum⟩ := ask_of_dialogue v allMetrics answers acc rest hd
+    have : n' = n := by omega
+    subst this
+    exact ⟨trace, h, hfst, hsum⟩
+
+theorem ask_never_keyError (v : IVer) (allMetrics : Bool) (answers : List Str) :
+    ask v allMetrics answers ≠ .keyError := by
+  intro h
+  obtain ⟨m, hm, hl⟩ := loop_keyError v (asked v allMetrics) answers [] [] h
+  have hrows := asked_have_rows
+  simp only [List.all_eq_true] at hrows
+  have := hrows v (by cases v <;> simp) allMetrics (by cases allMetrics <;> simp) m hm
+  rw [hl] at this
+  cases this
+
+/-- MAIN (end of input): the builder ends with EOF exactly when the answers run out before every asked
+    metric has received a legal answer; it never fails otherwise -/
+theorem ask_eof_iff (v : IVer) (allMetrics : Bool) (answers : List Str) :
+    (∃ trace, ask v allMetrics answers = .eof trace) ↔
+      ¬ ∃ acc rest, Dialogue v (asked v allMetrics) answers acc rest := by
+  constructor
+  · rintro ⟨trace, h⟩ ⟨acc, rest, hd⟩
+    obtain ⟨n, trace', h', -⟩ := ask_of_dialogue v allMetrics answers acc rest hd
+    rw [h] at h'
+    cases h'
+  · intro hno
+    rcases outcome_cases (ask v allMetrics answers) with ⟨vec, n, trace, h⟩ | h | h
+    · obtain ⟨acc, rest, hd, -⟩ := ask_result_imp v allMetrics answers vec n trace h
+      exact absurd ⟨acc, rest, hd⟩ hno
+    · exact h
+    · exact absurd h (ask_never_keyError v allMetrics answers)
+
+/-- the dialogue accepts exactly one pair per asked metric, in order, each with a legal value -/
+theorem dialogue_pairs (v : IVer) (ms answers : List Str) (acc : List (Str × Str)) (rest : List Str)
+    (h : Dialogue v ms answers acc rest) :
+    keys acc = ms ∧ ∀ kv ∈ acc, ∃ row, lookup kv.1 (valueNamesOf v) = some row ∧ kv.2 ∈ keys row := by
+  induction h with
+  | done answers => exact ⟨rfl, by simp⟩
+  | ask m ms row bad good x tail acc rest hl hbad hgood hd ih =>
+    obtain ⟨ih1, ih2⟩ := ih
+    refine ⟨by simp only [keys, List.map_cons] at ih1 ⊢; rw [ih1], ?_⟩
+    intro kv hkv
+    rcases List.mem_cons.1 hkv with rfl | hkv
+    · exact ⟨row, hl, (accepted_legal v _ _ _ hgood).1⟩
+    · exact ih2 kv hkv
+
+/-! ### the builder's tables against the parser's tables -/
+
+/-- every value the builder can accept for a metric it knows is a legal value of the parser's tables,
+    and all tokens are ':'-free -/
+def tablesAgree (v : IVer) (T : Tables) : Bool :=
+  (abbrsOf v).all fun m =>
+    match lookup m (valueNamesOf v) with
+    | none => true
+    | some row =>
+      decide (m ∈ T.abbrs) && !m.contains ':' &&
+        (match lookup m T.legal with
+         | none => false
+         | some vs => (keys row).all fun x => decide (x ∈ vs) && !x.contains ':')
+
+/-- the asked metrics are distinct metrics of the version's table and contain the mandatory ones -/
+def askedOk (v : IVer) (T : Tables) : Bool :=
+  [true, false].all fun a =>
+    decide (asked v a).Nodup && (asked v a).all (fun m => decide (m ∈ abbrsOf v)) &&
+      T.mandatory.all (fun m => decide (m ∈ asked v a)) && !(asked v a).isEmpty
+
+theorem tables_agree :
+    tablesAgree .i2 V2.tables = true ∧ tablesAgree .i30 V3.tables = true ∧
+      tablesAgree .i31 V3.tables = true ∧ tablesAgree .i4 V4.tables = true := by decide +kernel
+
+theorem asked_ok :
+    askedOk .i2 V2.tables = true ∧ askedOk .i30 V3.tables = true ∧
+      askedOk .i31 V3.tables = true ∧ askedOk .i4 V4.tables = true := by decide +kernel
+
+theorem legalPair_of_agree {v : IVer} {T : Tables} (h : tablesAgree v T = true) {m x : Str}
+    {row : List (Str × Str)} (hm : m ∈ abbrsOf v) (hl : lookup m (valueNamesOf v) = some row)
+    (hx : x ∈ keys row) : LegalPair T (m, x) := by
+  unfold tablesAgree at h
+  have := List.all_eq_true.1 h m hm
+  rw [hl] at this
+  simp only [Bool.and_eq_true, decide_eq_true_eq] at this
+  obtain ⟨⟨h1, h2⟩, h3⟩ := this
+  split at h3
+  · cases h3
+  · rename_i vs hvs
+    have := List.all_eq_true.1 h3 x hx
+    simp only [Bool.and_eq_true, decide_eq_true_eq] at this
+    exact ⟨h1, ⟨vs, hvs, this.1⟩, by simpa using h2, by simpa using this.2⟩
+
+/-- the pairs accepted by a completed dialogue over the asked metrics satisfy everything the parser's
+    round-trip theorem (C04) needs -/
+theorem dialogue_parse_ready {v : IVer} {T : Tables} {g : Cvss.Spec.Grammar.G} (hP : C04.Pinned T g)
+    (h1 : tablesAgree v T = true) (h2 : askedOk v T = true) (a : Bool) (answers : List Str)
+    (acc : List (Str × Str)) (rest : List Str) (hd : Dialogue v (asked v a) answers acc rest) :
+    acc ≠ [] ∧ (∀ kv ∈ acc, LegalPair T kv) ∧ (∀ kv ∈ acc, '/' ∉ kv.1 ∧ '/' ∉ kv.2) ∧
+      (keys acc).Nodup ∧ ∀ k ∈ T.mandatory, k ∈ keys acc := by
+  obtain ⟨hk, hrow⟩ := dialogue_pairs v _ answers acc rest hd
+  unfold askedOk at h2
+  have h2a := List.all_eq_true.1 h2 a (by cases a <;> simp)
+  simp only [Bool.and_eq_true, decide_eq_true_eq, List.all_eq_true, Bool.not_eq_true',
+    List.isEmpty_eq_false_iff] at h2a
+  obtain ⟨⟨⟨hnd, hsub⟩, hmand⟩, hne⟩ := h2a
+  have hleg : ∀ kv ∈ acc, LegalPair T kv := by
+    intro kv hkv
+    obtain ⟨row, hl, hx⟩ := hrow kv hkv
+    have hmem : kv.1 ∈ asked v a := by rw [← hk]; exact List.mem_map.2 ⟨kv, hkv, rfl⟩
+    exact legalPair_of_agree h1 (hsub _ hmem) hl hx
+  refine ⟨?_, hleg, fun kv hkv => hP.slashFree (hleg kv hkv), by rw [hk]; exact hnd,
+    by rw [hk]; exact hmand⟩
+  rintro rfl
+  exact hne hk.symm
+
+/-- the returned vector is accepted by the parser of the corresponding class (C04 lifts this to the
+    constructor): v2 -/
+theorem ask_result_parses_v2 (allMetrics : Bool) (answers : List Str) (vec : Str) (n : Nat) (trace : List (Str × Nat))
+    (h : ask .i2 allMetrics answers = .result vec n trace) : ∃ m, V2.parse vec = .ok m := by
+  obtain ⟨acc, rest, hd, rfl, -⟩ := ask_result_imp _ _ _ _ _ _ h
+  obtain ⟨hne, hl, hs, hn, hm⟩ :=
+    dialogue_parse_ready C04.pinned2 tables_agree.1 asked_ok.1 allMetrics answers acc rest hd
+  exact ⟨acc, by simpa [prefixOf] using C04.v2_parse_render acc hne hl hs hn hm⟩
+
+theorem ask_result_parses_v3 (v : IVer) (hv : v = .i30 ∨ v = .i31) (allMetrics : Bool) (answers : List Str) (vec : Str)
+    (n : Nat) (trace : List (Str × Nat)) (h : ask v allMetrics answers = .result vec n trace) :
+    ∃ m, V3.parse vec = .ok ((if v = .i30 then 0 else 1), m) := by
+  obtain ⟨acc, rest, hd, rfl, -⟩ := ask_result_imp _ _ _ _ _ _ h
+  rcases hv with rfl | rfl
+  · obtain ⟨hne, hl, hs, hn, hm⟩ :=
+      dialogue_parse_ready C04.pinned3 tables_agree.2.1 asked_ok.2.1 allMetrics answers acc rest hd
+    exact ⟨acc, C04.v3_parse_render 0 (prefixOf .i30) rfl acc hne hl hs hn hm⟩
+  · obtain ⟨hne, hl, hs, hn, hm⟩ :=
+      dialogue_parse_ready C04.pinned3 tables_agree.2.2.1 asked_ok.2.2.1 allMetrics answers acc rest hd
+    exact ⟨acc, C04.v3_parse_render 1 (prefixOf .i31) rfl acc hne hl hs hn hm⟩
+
+theorem ask_result_parses_v4 (allMetrics : Bool) (answers : List Str) (vec : Str) (n : Nat) (trace : List (Str × Nat))
+    (h : ask .i4 allMetrics answers = .result vec n trace) : ∃ m, V4.parse vec = .ok m := by
+  obtain ⟨acc, rest, hd, rfl, -⟩ := ask_result_imp _ _ _ _ _ _ h
+  obtain ⟨hne, hl, hs, hn, hm⟩ :=
+    dialogue_parse_ready C04.pinned4 tables_agree.2.2.2 asked_ok.2.2.2 allMetrics answers acc rest hd
+  exact ⟨acc, C04.v4_parse_render acc hne hl hs hn hm⟩
+
+/-- non-vacuity: a concrete dialogue (one invalid answer, mixed case, padding) -/
+example :
+    (match ask .i31 false [c!"n", c!"?", c!" l", c!"N ", c!"r", c!"u", c!"H", c!"h", c!"H", c!"extra"] with
+     | .result vec n _ => (vec, n) == (c!"CVSS:3.1/AV:N/AC:L/PR:N/UI:R/S:U/C:H/I:H/A:H", 9)
+     | _ => false) = true := by decide +kernel
 
 end Cvss.Props.C16
